@@ -40,6 +40,13 @@ def slices(tier):
         Slice("scalar-2", [W, F], S, 5, jets=J1, levels=[SV, {"mul", "pow"}, {"mul", "add", "div"}, DF, FIN], **kw),
         # chain rule through exp, ln, sin, ... (w = 0, w1 = 1 at the point)
         Slice("math", [W, ("w1", ()), F], MATH | {"mul"}, 5, jets=J1, fixed={"w": 0, "w1": 1}, levels=[SV, MATH | {"mul"}, {"exp", "ln", "sin", "cos", "mul"}, DF, FIN], **dict(kw, chain="strict")),
+        # two variables in one expansion (mixed partials, sums of derivatives with respect to different variables)
+        Slice("two-vars", [W, ("w2", ())], S, 6, jets=dict(mode="variable", ndir=2, varsizes=(1, 1)), levels=[SV, SV, {"mul"}, DF, DF | {"add", "mul"}, FIN], **dict(kw, chain=True)),
+        # the variable wraps a spatial derivative of a non-terminal (directions: 2 spatial + the variable's components)
+        Slice("var-of-dx", [F, W], S | {"dx"}, 6, jets=dict(mode="mixed", ndir=3, nspat=2, varsizes=(1,)), levels=[{"mul"}, {"dx"}, SV, {"mul", "pow", "add"}, DF, FIN], **dict(kw, chain="strict")),
+        Slice("var-of-grad", [F, W], T | {"grad"}, 6, idx=(10,), jets=dict(mode="mixed", ndir=4, nspat=2, varsizes=(2,)), levels=[{"mul"}, {"grad"}, SV, {"dot", "inner", "index"}, DF, FIN], mikinds=("fixed",), **dict(kw, chain="strict")),
+        # the hyperelasticity idiom: variable(I + grad u), energy, stress
+        Slice("var-of-gradu", [U, ("gu", (2, 2)), F], T, 5, idx=(10,), jets=dict(mode="variable", ndir=4, opts={"gu": {"grad_of": "u"}}), levels=[{"transpose", "add", "mul"}, SV, {"tr", "inner", "det", "dot"}, DF, FIN], mikinds=("fixed",), **dict(kw, chain="strict")),
         # repeated diff
         Slice("scalar-dd", [W, F], S, 5, jets=J1, levels=[SV, {"mul", "pow", "div"}, DF, DF, FIN], **kw),
         # nested variables: a plain variable between v and f
